@@ -136,7 +136,15 @@ fn lvl(name: &str, skeletons: Vec<model::Skeleton>, dev1: &[&str], dev2: &[&str]
 fn full_levels(m: &Model, thorough: bool, forms1: &[&str], forms_k2: &[&str], forms2: &[&str]) -> Vec<Level> {
     let all = all_ctx();
     let mut v = vec![
-        lvl("ctx*/k<=1/dev<=1", sweep::skeletons(m, &all, &[0, 1], &[Size::Short, Size::Medium, Size::AllMid, Size::Tail]), forms1, &[]),
+        lvl("ctx*/k<=1/dev<=1", sweep::skeletons(m, &all, &[0, 1], &[Size::Short, Size::Medium]), forms1, &[]),
+        // atoms of 20 chars everywhere / a 45-char last atom: line length now interacts with the
+        // 0.6 * max_width chain rule and with "does the call fit"; layout-relevant forms only
+        lvl(
+            "ctx*/k<=1/mid+tail atoms/layout forms",
+            sweep::skeletons(m, &all, &[1], &[Size::AllMid, Size::Tail]),
+            if forms1.len() > 6 { &["nl", "nl_sp12", "nl2", "none", "lc", "bc"] } else { forms1 },
+            &[],
+        ),
         lvl("main/k2/dev0", sweep::skeletons(m, &MAIN_CTX, &[2], &[Size::Short]), &[], &[]),
         if thorough {
             lvl("hash,let,math/k2/dev1", sweep::skeletons(m, &["hash", "let", "math_i"], &[2], &[Size::Short]), forms_k2, &[])
